@@ -12,6 +12,9 @@ from .c02 import exception_class
 from .core.effects import Effects
 
 RULES = {
+    "C01.9": "the single-entry reader accepts every entry the writer acknowledged (= C07.6): every comparison in Block::read - which read_next and the recovery scan use - is the "
+             "header-length sanity test, `entry end > file length`, or the checksum comparison; a bound a valid entry can meet exactly (`>=` against the file length, the block's "
+             "limit) makes read_next return None in front of an entry that ends with its block or file, and everything behind it is never delivered",
     "C01.1": "returned = consumed (MPT): in batch_read_for_topic every path that increments the per-entry counter (the value later subtracted from the topic count and the number of "
              "cursor advances) pushes that entry into the returned vector, unless the path takes an edge that implies an offset-addressed read (an entry emptied by offset trimming "
              "has nothing to return); in read_next every checkpoint-guarded commit of the cursor is followed on all paths by `return Ok(Some(entry))` of the entry read at that "
@@ -676,6 +679,8 @@ def run(ctx):
     check_budget_stop_ends_batch(ctx, facts, rid="C01.6")
     check_block_left_at_end(ctx, facts)
     check_cursor_pairs(ctx, facts)
+    from .c07 import check_reader_rejections
+    check_reader_rejections(ctx, facts, rid="C01.9")
     ctx.assume("NOT decided: ordering and once-only delivery across blocks, the planner/budget interaction (e.g. a budget that ends inside a sealed block while the tail holds entries), rotation arithmetic")
     return {
         "explanation": "four structural clauses on MIR: must-pass-through between the per-entry counter and the push into the returned vector (with offset-addressed-only edges derived "
